@@ -5,7 +5,6 @@ package openapi
 // Contracts checked by /verif/goavc (comment-only file, built only with -tags verif).
 
 //@ func MustGenerate
-//@   trusted
 //@   modifies nothing
 
 //@ iface goa.design/goa/v3/expr.DataType.Kind
